@@ -114,6 +114,46 @@ def replay(recs):
                 lambda v: (not bool(v.isinf)) and bool(L.contains(v)))
             chk("Line.basis_matrix/3D", "general", case, "orthonormal rows spanning the line", lambda: L.basis_matrix, basis_ok(L, 2))
             chk("Line.general_point/3D", "general", case, "a point outside the line", lambda: L.general_point, lambda v: not bool(L.contains(v)))
+            if (sum(r["a"]) + 3 * sum(r["p"])) % 4 == 0:
+                # used, then moved by an exact isometry: the constructions of the moved line are the moved constructions
+                from ..moved import motions, mp, warm
+                for mname, mv, T, Ti in motions(3):
+                    def moved_line(mv=mv):
+                        L0 = warm(g.Line(g.Point(*r["a"]), g.Point(*r["b"])))
+                        for q in (p, g.Point(*r["a"])):       # a point off the line and a point of the line
+                            for fn in (L0.project, L0.perpendicular, L0.parallel):
+                                try:
+                                    fn(q)
+                                except Exception:  # noqa: BLE001
+                                    pass
+                        return mv(L0)
+                    mp_ = P(mp(T, r["p"]))
+                    foot_m = mp(T, r["foot"])
+                    site = f"/3D/used-then-moved/{mname}"
+                    chk("Line.project" + site, st, case, foot_m, lambda: moved_line().project(mp_), cls("point", foot_m))
+                    hold = {}
+
+                    def keep(LM, hold=hold):
+                        hold["L"] = LM
+                        return LM
+                    chk("Line.base_point" + site, "general", case, "a finite point of the moved line",
+                        lambda: keep(moved_line()).base_point, lambda v: (not bool(v.isinf)) and bool(hold["L"].contains(v)))
+                    chk("Line.basis_matrix" + site, "general", case, "orthonormal rows spanning the moved line",
+                        lambda: keep(moved_line()).basis_matrix, lambda v: basis_ok(hold["L"], 2)(v))
+                    am = P(mp(T, list(r["a"]) + [1]))
+                    um = (np.array(T, dtype=float)[:3, :3] @ u)
+
+                    def perp_on_m(v, am=am, um=um):
+                        if kind_of(v) != "line3" or not bool(v.contains(am)):
+                            return False
+                        dvec = np.asarray(v.direction.array, dtype=complex)[:3]
+                        return abs(np.dot(dvec, um)) <= 1e-6 * np.linalg.norm(dvec) * np.linalg.norm(um)
+                    chk("Line.perpendicular(point of the line)" + site, st, case, "a line through the point perpendicular to the moved line",
+                        lambda: moved_line().perpendicular(am), perp_on_m)
+                    if not r["on"]:
+                        exp_perp = g.Line(mp_, P(foot_m))
+                        chk("Line.perpendicular" + site, st, case, "the join of the moved point and the moved foot",
+                            lambda: moved_line().perpendicular(mp_), lambda v: kind_of(v) == "line3" and bool(v == exp_perp))
         elif t in ("pred2", "pred3e"):
             if r["same"]:
                 continue        # identical subspaces: meet() raises, the predicates are not defined by the property
